@@ -131,6 +131,40 @@ func wireCorpus(rng *hlib.Rng) []WireCase {
 	return cs
 }
 
+// independent reference of the transaction framing (Bitcoin serialisation): version(4) | CompactSize count |
+// prev_txid(32) prev_vout(4) | CompactSize scriptLen | script.  ok=false: malformed (the Go function returns nil).
+func refCompactSize(b []byte) (v uint64, rest []byte, ok bool) {
+	if len(b) == 0 {
+		return 0, nil, false
+	}
+	n := map[byte]int{0xfd: 2, 0xfe: 4, 0xff: 8}[b[0]]
+	if n == 0 {
+		return uint64(b[0]), b[1:], true
+	}
+	if len(b) < 1+n {
+		return 0, nil, false
+	}
+	for i := n; i >= 1; i-- {
+		v = v<<8 | uint64(b[i])
+	}
+	return v, b[1+n:], true
+}
+
+func refScriptSig(tx []byte) ([]byte, bool) {
+	if len(tx) < 4 {
+		return nil, false
+	}
+	_, rest, ok := refCompactSize(tx[4:])
+	if !ok || len(rest) < 36 {
+		return nil, false
+	}
+	n, rest, ok := refCompactSize(rest[36:])
+	if !ok || n > uint64(len(rest)) {
+		return nil, false
+	}
+	return rest[:n], true
+}
+
 func (r *runner) runWire(c *WireCase) {
 	tx, err := hex.DecodeString(c.Tx)
 	if err != nil {
@@ -161,6 +195,10 @@ func (r *runner) runWire(c *WireCase) {
 	// model-independent: the scriptSig is a piece of the input, never longer than it
 	if sig != nil && (len(sig) > len(tx) || !bytes.Contains(tx, sig)) {
 		r.fail("donor.coinbase:scriptSig-not-within-input", fmt.Sprintf("%d-byte scriptSig from a %d-byte transaction (%s)", len(sig), len(tx), c.Note), c)
+	}
+	if want, ok := refScriptSig(tx); ok != (sig != nil) || (ok && !bytes.Equal(want, sig)) {
+		r.fail("donor.coinbase:scriptSig-differs-from-reference",
+			fmt.Sprintf("ExtractScriptSigFromCoinbaseTx returns %x (nil=%v), the transaction framing says %x (well-formed=%v) (%s)", sig, sig == nil, want, ok, c.Note), c)
 	}
 	if sealErr == nil && !bytes.Contains(tx, seal) {
 		r.fail("donor.coinbase:seal-hash-not-within-input", c.Note, c)
